@@ -2,6 +2,8 @@ import HmsProofs.Lemmas.CheckBasic
 /-! Soundness of the checker (C03): a result without error-level diagnostics is a derivation
 of the declarative typing relation with the recorded attributes. Mutual structural recursion
 over the syntax. -/
+set_option linter.unusedSimpArgs false
+
 namespace HmsProofs.Lemmas.Check
 open Hms.Check
 
@@ -71,7 +73,7 @@ theorem sound_expr : (e : PExpr) → ∀ (Γ : Ctx) (s : Bool), (checkExpr Γ s 
     simp only [List.append_eq_nil_iff] at h1
     obtain ⟨⟨⟨ha, hb⟩, hta⟩, htb⟩ := h1
     rw [wrap_of_ok hany]
-    exact HasType.mk (Raw.range (iha ha) (ihb hb) (by simpa using hta) (by simpa using htb)) hany
+    exact HasType.mk (Raw.range (iha ha) (ihb hb) (compat_iff.mpr (by simpa using hta)) (compat_iff.mpr (by simpa using htb))) hany
   | .list xs, Γ, s => by
     have ih := sound_elems xs Γ .any
     intro h; simp only [checkExpr] at h ⊢
@@ -230,7 +232,7 @@ theorem sound_expr : (e : PExpr) → ∀ (Γ : Ctx) (s : Bool), (checkExpr Γ s 
       simp only [List.append_eq_nil_iff, and_true] at h1
       obtain ⟨⟨hc, hcb⟩, ht⟩ := h1
       rw [wrap_of_ok hany]
-      exact HasType.mk (Raw.ifThen (ihc hc) (tcErr_nil hcb) (iht ht) htc) hany
+      exact HasType.mk (Raw.ifThen (ihc hc) (tcErr_nil hcb) (iht ht) (compat_iff.mpr htc)) hany
   | .matchE c arms, Γ, s => by
     have ihc := sound_expr c Γ true
     have iha := sound_arms arms Γ
@@ -249,7 +251,7 @@ theorem sound_expr : (e : PExpr) → ∀ (Γ : Ctx) (s : Bool), (checkExpr Γ s 
       simp only [hd, Option.isNone_none, Bool.true_and, Option.isSome_none] at hm ⊢
       cases htc : typeCheck true Ty.null
           (matchTy false arms.isEmpty (checkArms Γ (checkExpr Γ true c).ty {} arms).st.rt) with
-      | none => exact htc
+      | none => exact compat_iff.mpr htc
       | some m => simp [htc] at hm
   | .tryE t name c, Γ, s => by
     have iht := sound_block t Γ
@@ -273,7 +275,7 @@ theorem sound_elems : (xs : PExprs) → ∀ (Γ : Ctx) (lt : Ty), (checkElems Γ
     cases hok : elemOK (checkExpr Γ true x).ty lt with
     | false =>
       simp only [hok, Bool.false_eq_true, ↓reduceIte] at hown
-      have htc := tcErr_nil hown
+      have htc := tcErr_nil' hown
       simp [elemOK, htc] at hok
     | true =>
       simp only [hok, ↓reduceIte] at hr ⊢
@@ -326,7 +328,7 @@ theorem sound_arms : (arms : PArms) → ∀ (Γ : Ctx) (ctl : Ty) (st : MSt), st
       simp only [hj] at h
       have hne : tcErr true (checkExpr Γ true act).ty st.rt Rule.branchMismatch ≠ [] := by
         intro hnil
-        have htc := tcErr_nil hnil
+        have htc := tcErr_nil' hnil
         simp only [armJoin, htc, Option.isNone_none, ↓reduceIte] at hj
         split at hj <;> simp at hj
       split at h <;> simp only [List.append_eq_nil_iff] at h <;> simp_all
